@@ -170,7 +170,12 @@ def run(ctx, only=None):
     items = [(s.id, s.janet()) for s in allsc]
     res = run_scenarios(hx, items, tag="n")
     res_early = run_scenarios(hx, items, extra=["--early"], tag="e")
-    evaluations = 2 * len(items)
+    # late-wake mode: the loop wakes 2 ms after every armed deadline, so a stale timer and the live one before it expire in
+    # the same timer phase (otherwise the poll phase drops stale timers at the heap head and masks a missing check there).
+    # Ticks are then not predictable: value-only oracle; scenarios whose B races its own deadline against the driver are left out
+    late_items = [(s.id, s.janet()) for s in allsc if s.meta.get("B") != "dl"]
+    res_late = run_scenarios(hx, late_items, extra=["--late", "2"], tag="l")
+    evaluations = 2 * len(items) + len(late_items)
     # ------------------------------------------------------------------ (D) correspondence with the model
     ndiff, ncorr, diffs = 0, 0, []
     exe = ctx.driver() if (THEOREMS and HAVE_DRIVER) else None
@@ -200,10 +205,13 @@ def run(ctx, only=None):
     # ------------------------------------------------------------------ (E) direct oracle on the implementation
     found = collections.OrderedDict()     # sig -> (scenario, what, mode)
     counts = collections.Counter()
-    for mode, rr in (("normal", res), ("early-wake", res_early)):
+    for mode, rr in (("normal", res), ("early-wake", res_early), ("late-wake", res_late)):
         for s in allsc:
+            if s.id not in rr:
+                continue
             r = rr[s.id]
-            probs = oracle.check_resumes(s, r) if "resumes" in s.expect else oracle.check(s, r)
+            ticks = mode != "late-wake"
+            probs = oracle.check_resumes(s, r, ticks) if "resumes" in s.expect else oracle.check(s, r, ticks)
             for sig, what in probs:
                 counts[sig] += 1
                 if sig not in found:
@@ -276,7 +284,9 @@ def replay(ctx, path):
     print(json.dumps({k: r.get(k) for k in ("signature", "what", "scenario", "meta", "mode")}, indent=1))
     if r.get("janet"):
         hx = ctx.build.harness("plain", "c07evwrap", [os.path.join(VERIF, "harness/C07/evwrap.c")])
-        res = run_scenarios(hx, [(r.get("scenario", "replay"), r["janet"])], extra=["--early"] if "early" in str(r.get("mode")) else [], tag="r")
+        mode = str(r.get("mode"))
+        res = run_scenarios(hx, [(r.get("scenario", "replay"), r["janet"])],
+                            extra=["--early"] if "early" in mode else (["--late", "2"] if "late" in mode else []), tag="r")
         for v in res.values():
             print("\n".join(v["lines"]))
             print("status:", v["status"])
